@@ -43,5 +43,19 @@ PROPS["C05"] = {
     "explanation": "monitor-based theorem; cancellation injected at every callback of generated flows",
     "assumptions": ["cancellation is issued from inside callbacks (deterministic); asynchronous cancellation during waits is C20"],
 }
+PROPS["C03"] = {
+    "parts": [ENGINE],
+    "level_text": "Theorems C03_connect_last_wins (the two-level table built by any list of Connect calls maps a pair to the target of the last call on it; re-connection overrides, other pairs untouched) and C03_path (for every graph - cycles, self-loops, shared targets, nesting -, oracle and fuel the visit tokens of the trace drive the flat routing machine, which starts at the start node, follows the most recent connection of (node, action) and ends exactly on a missing or nil connection, from 'enter n' to 'n finished with the returned action'; tokens of nodes off the path are rejected). spec_C03 = that machine + the lifecycle monitor, proved of the model and applied to the implementation; correspondence: every 2-node x 2-action table with overwritten / re-ordered Connect lists and action scripts, random graphs run three times, nested chains.",
+    "level_note": _T + " Routing is judged on runs without cancellation (C05 covers cancelled flows).",
+    "explanation": "refinement of Connect lists to last-wins lookup; simulation of the hierarchical engine by the flat routing machine",
+    "assumptions": ["leaves have a prep and a post of their own so that visits are visible in the callback trace"],
+}
+PROPS["C10"] = {
+    "parts": [ENGINE],
+    "level_text": "Theorem C10_flatten: at any nesting depth the run of a hierarchy of flows is a run of the flat stack machine (frames (flow, member); a flow that ends presents the action of the last node it executed to its parent, which is asked for (flow node, action) exactly as for a plain node), for every oracle, fuel and context of enclosing flows; C10_same_store: every prep/post callback at every depth receives the run's store. spec_C10 proved of the model and applied to the implementation; correspondence: nested chains (depth 1..4 x routing level x ending mode x action) and random hierarchies with reuse, nil edges, failures inside inner flows.",
+    "level_note": _T,
+    "explanation": "simulation of the hierarchical engine by the flat stack machine, any depth",
+    "assumptions": ["leaves have a prep and a post of their own so that visits are visible in the callback trace"],
+}
 
 NOT_APPLICABLE = {}
